@@ -187,6 +187,16 @@ def _apply(view, op, other=None):
             return {'out': _ints(view.drop(op['names']).flatten())}
         if k == 'keepdrop':
             return {'out': _ints(view.keep(op['names']).drop(op['names2']).flatten())}
+        if k == 'chain':                   # successive filters on the same view; 'all' (if present) is the last step
+            v = view
+            for st in op['steps']:
+                if st['o'] == 'keep':
+                    v = v.keep(st['names'])
+                elif st['o'] == 'drop':
+                    v = v.drop(st['names'])
+                else:
+                    return {'out': _ints(v.all(st['names']))}
+            return {'out': _ints(v.flatten())}
         if k == 'or':
             return {'out': _ints((view | other).flatten())}
         d = getattr(view, k)
@@ -310,7 +320,8 @@ def execute(rec):
         ids2 = [int(x) + 1 for x in sels[op['sel2']]['ids']] if op['k'] == 'or' else []
         events.append({'a': 'Query', 'sel': {'kind': s['kind'], 'ids': [int(x) + 1 for x in s['ids']]},
                        'skip': list(q['skip']),
-                       'op': {'k': op['k'], 'names': list(op['names']), 'names2': list(op['names2']), 'ids2': ids2},
+                       'op': {'k': op['k'], 'names': list(op['names']), 'names2': list(op['names2']), 'ids2': ids2,
+                              'steps': [{'o': st['o'], 'names': list(st['names'])} for st in op.get('steps', [])]},
                        'res': res})
     return events
 
@@ -328,6 +339,32 @@ def _subsets(rng, n, k, include_all=True):
         m = int(rng.integers(1, max(2, n)))
         out.append(sorted(rng.choice(n, min(m, n), replace=False).tolist()))
     return out[:max(k, 3)]
+
+
+def _chains(rng, names, singles, pair):
+    """Compositions of name filters: (skip, steps).  Every ordered pair of keep / drop (/ all as last step), once with a
+    first filter that removes the first name and a second one that mentions every name again, once with name sets
+    drawn at random; skip= followed by keep / all / drop; some triples."""
+    S = singles[:3] + pair + [names] + ([names[1:]] if len(names) >= 2 else []) + [[]]
+    rnd = lambda: S[int(rng.integers(len(S)))]
+    a = singles[0]
+    rest = names[1:]
+    st = lambda o, ns: {'o': o, 'names': list(ns)}
+    out = []
+    for o1 in ('keep', 'drop'):
+        first = a if o1 == 'drop' else rest            # both remove the first name
+        for o2 in ('keep', 'drop', 'all'):
+            out.append(([], [st(o1, first), st(o2, names)]))
+            out.append(([], [st(o1, rnd()), st(o2, rnd())]))
+    for o2 in ('keep', 'all', 'drop'):
+        out.append((a, [st(o2, names)]))
+        out.append((rnd(), [st(o2, rnd())]))
+    out.append((a, [st('drop', rnd()), st('keep', names)]))
+    out.append(([], [st('keep', rest), st('drop', rnd()), st('keep', names)]))
+    out.append(([], [st('drop', a), st('keep', rnd()), st('all', names)]))
+    out.append(([], [st('keep', rnd()), st('keep', rnd()), st('keep', names)]))
+    out.append((rnd(), [st('drop', rnd()), st('drop', rnd()), st('all', rnd())]))
+    return out
 
 
 def plan(rng, mesh, elem, depth, comp=None):
@@ -374,6 +411,10 @@ def plan(rng, mesh, elem, depth, comp=None):
             queries.append({'a': 'Query', 'sel': j, 'skip': [], 'op': _op('keepdrop', names, singles[0]), 'forms': [0]})
             queries.append({'a': 'Query', 'sel': j, 'skip': [], 'op': _op('keepdrop', pair[0], singles[-1]),
                             'forms': [1]})
+        if depth >= 2 or s['kind'] in ('none', 'facets'):
+            for i, (sk, steps) in enumerate(_chains(rng, names, singles, pair)):
+                queries.append({'a': 'Query', 'sel': j, 'skip': list(sk), 'op': _op('chain', steps=steps),
+                                'forms': [i + j]})
         for k in ('nodal', 'edge', 'facet', 'interior'):
             queries.append({'a': 'Query', 'sel': j, 'skip': [], 'op': _op(k), 'forms': [0, 3]})
             if skips:
@@ -399,16 +440,18 @@ def plan(rng, mesh, elem, depth, comp=None):
 
 def recipe(rng, fam, mrec, spec, depth, basis='cell'):
     mesh = DC.make_mesh(mrec)
-    elem = DC.build_element(spec)
+    elem, err = guarded(lambda: DC.build_element(spec), 30)
+    if err:                                  # judged when executed (Basis event with err)
+        return {'driver': 'lookup', 'family': fam, 'mesh': mrec, 'elem': spec, 'basis': basis, 'sels': [], 'queries': []}
     sels, queries = plan(rng, mesh, elem, depth, trace_component(spec) if basis == 'cell' else None)
     return {'driver': 'lookup', 'family': fam, 'mesh': mrec, 'elem': spec, 'basis': basis, 'sels': sels,
             'queries': queries}
 
 
 def scenario(sid, rec):
-    elem = DC.build_element(rec['elem'])
+    elem, err = guarded(lambda: DC.build_element(rec['elem']), 30)
     tags = {'kind': rec['mesh']['kind'], 'family': rec['family'], 'elem': DC.label(rec['elem']),
-            'efnames': DC.edge_facet_names_differ(elem), 'basis': rec.get('basis', 'cell')}
+            'efnames': DC.edge_facet_names_differ(elem) if not err else 'same', 'basis': rec.get('basis', 'cell')}
     return {'id': sid, 'recipe': rec, 'tags': tags, 'events': execute(rec)}
 
 
@@ -465,8 +508,13 @@ def generate(ctx):
             seen = {DC.label(s) for s in specs}
             specs += [s for s in DC.catalogue(kind) if DC.label(s) not in seen
                       and DC.label(s) not in ('ElementHexC1', 'Vector(ElementHex2)')]
+        # vector wrappers with an explicit number of components (names u^1 .. u^d), also in the quick tier
+        specs += [s for s in DC.extra_wrappers(kind) if 'vec' in s and DC.label(s) not in {DC.label(x) for x in specs}][:3]
+        # a numbering with fewer rows than basis functions (C04 finding on element.dim) is not queried here
+        specs = [s for s in specs if DC.spec_tags(s, kind)['vecdim'] == 'ok']
         for q, spec in enumerate(specs):
-            heavy = sum(DC.signature(DC.build_element(spec)).values()) > 12
+            e0, err = guarded(lambda: DC.build_element(spec), 30)
+            heavy = bool(err) or sum(DC.signature(e0).values()) > 12
             cand = [x for x in multi if len(x[1]['t'][0]) <= (8 if heavy else 30)] or multi
             nm = min(len(cand), 5 if thorough else 2)
             for a in range(nm):
@@ -483,13 +531,20 @@ def generate(ctx):
 def model(ctx):
     out = os.path.join(ctx.scratch, 'c07_universe.json')
     env = {'OUT_FILE': out, 'TIER': ctx.tier}
-    ctx.model_must_hold('MC_C07', 'MC_C07.cfg', env=env, timeout=1500 if ctx.tier == 'thorough' else 600)
-    # signatures whose edge and facet DOFs are named differently: the current name -> row translation holds ...
-    ctx.model_must_hold('MC_C07', 'MC_C07_fixed.cfg', clause_prefix='ModelNamed',
-                        env={'OUT_FILE': '', 'TIER': ctx.tier}, timeout=900)
-    # ... and the translation before fix 28a0105 (offsets nodal, facet, edge) is refuted (regression model)
-    r = ctx.tlc_model('MC_C07', 'MC_C07_names.cfg', env={'OUT_FILE': '', 'TIER': ctx.tier}, timeout=600,
-                      label='regression model: name offsets before fix 28a0105')
+    from concurrent.futures import ThreadPoolExecutor
+    env0 = {'OUT_FILE': '', 'TIER': ctx.tier}
+    with ThreadPoolExecutor(max_workers=3) as ex:       # three independent TLC runs side by side
+        f1 = ex.submit(ctx.model_must_hold, 'MC_C07', 'MC_C07.cfg', env=env, workers=8,
+                       timeout=1500 if ctx.tier == 'thorough' else 600)
+        # signatures whose edge and facet DOFs are named differently: the current name -> row translation holds ...
+        f2 = ex.submit(ctx.model_must_hold, 'MC_C07', 'MC_C07_fixed.cfg', clause_prefix='ModelNamed', env=env0,
+                       workers=4, timeout=900)
+        # ... and the translation before fix 28a0105 (offsets nodal, facet, edge) is refuted (regression model)
+        f3 = ex.submit(ctx.tlc_model, 'MC_C07', 'MC_C07_names.cfg', env=env0, workers=2, timeout=600,
+                       label='regression model: name offsets before fix 28a0105')
+        f1.result()
+        f2.result()
+        r = f3.result()
     ctx.notes['old_name_offsets_refuted_by_tlc'] = bool(r['violated'])
     if not r['violated']:
         raise MachineryError('MC_C07 does not refute the pre-repair name offsets')
@@ -526,7 +581,7 @@ def run(ctx):
             for ev in sc['events'][1:]:
                 if ev['a'] == 'Query' and ev['sel']['ids'] and nt >= 2:
                     keys.add(json.dumps([rec['mesh'], rec['elem'], ev['sel'], ev['skip'], ev['op']], sort_keys=True))
-        ctx.validate('TraceC07', scs)
+        ctx.validate('TraceC07', scs, jvms=8)
     ctx.notes['distinct_nontrivial'] = len(keys)
     ctx.notes['scenarios_from_tlc_universe'] = n_tlc
     return ctx.finish(rule=RULE, assumptions=[
